@@ -286,8 +286,14 @@ def run(ctx):
         confs += [(6, 2, 2, [sparse, sparse2]), (6, 1, 3, ["FullFilter"]), (5, 0, 3, ["FullFilter"])]
     npx = 0
     tlc_leafsets = {}
-    for (R, D, K, filters) in confs:
-        r = ctx.tlc("MCSample", extra={"MCSample.tla": mc_module(filters, PASSES)}, cfg_text=CFG % dict(R=R, D=D, K=K), timeout=3000)
+    import concurrent.futures
+    with concurrent.futures.ThreadPoolExecutor(max_workers=4) as pool:
+        futs = [pool.submit(lambda R=R, D=D, K=K, filters=filters: ctx.tlc("MCSample", extra={"MCSample.tla": mc_module(filters, PASSES)}, cfg_text=CFG % dict(R=R, D=D, K=K),
+                                                                           timeout=3000, workers=4)) for (R, D, K, filters) in confs]
+        ftl = pool.submit(lambda: toastlat.run_tlc(ctx, 4, 2, 1))
+        results = [f.result() for f in futs]
+        tl = ftl.result()
+    for (R, D, K, filters), r in zip(confs, results):
         recs = r.json_lines("F")
         if not recs:
             ctx.machinery("TLC emitted no finished sampling behaviours")
@@ -301,7 +307,6 @@ def run(ctx):
             ctx.sample({"abstract_config": {"filter": ex["filter"], "bottomUp": ex["bottomUp"], "mode": ex["mode"], "passes": ex["passes"]},
                         "final_files": {k: v for k, v in list(ex["files"].items())[:2]}})
     ctx.note("abstract_pixels_validating_closed_form", npx)
-    tl = toastlat.run_tlc(ctx, 4, 2, 1)
     # ---- real runs
     worst = 0.0
     runs = []
